@@ -5,6 +5,7 @@ from .harness import Explorer
 from .rules import part, wrappers, pent, sysz, mcsops, cnf, enum, cinf, preocf
 from .rules import parser as parser_rules
 from .rules import diag
+from .rules import crev
 
 
 def _class_of(table, key):
@@ -381,4 +382,14 @@ def C06(rep, prog, tier):
     preocf.fact_builder_sibling(rep, ex)
 
 
-CHECKS = {"C01": C01, "C02": C02, "C03": C03, "C04": C04, "C05": C05, "C06": C06, "C07": C07, "C09": C09, "C10": C10, "C11": C11, "C12": C12, "C13": C13, "C14": C14, "C16": C16, "C17": C17, "C18": C18, "C20": C20, "C15": C15}
+def C19(rep, prog, tier):
+    rep.explanation = ("C19 (structural clauses): REV.classify / REV.triple-positions (reference, fast and incremental compilation "
+                       "against one specification, under every assignment of the classification tests on two concrete conditionals), "
+                       "MASK.literal, REV.incremental (add/remove sequences against a fresh model), REV.one-term, REV.fixed-everywhere, "
+                       "REV.relation, C.empty-minimum, CHECK.three-way, MODEL.extract, REV.entry. Existence and Pareto minimality of "
+                       "the returned parameters are not decided")
+    ex = Explorer(prog, rep)
+    crev.check_all(rep, ex)
+
+
+CHECKS = {"C19": C19, "C01": C01, "C02": C02, "C03": C03, "C04": C04, "C05": C05, "C06": C06, "C07": C07, "C09": C09, "C10": C10, "C11": C11, "C12": C12, "C13": C13, "C14": C14, "C16": C16, "C17": C17, "C18": C18, "C20": C20, "C15": C15}
